@@ -428,6 +428,19 @@ class RuleProxy:
         self._R.tables = v
 
 
+def transport_registration_rule(F, R, rule):
+    """The transports' queue_set write the three area addresses they receive - each 64-bit address split into its own
+    low/high words, into its own register - and nothing else (register traces of C10.M2 / C11.W3 under another rule id)."""
+    from . import C10 as _c10, C11 as _c11
+    _qs = lambda inst: 'queue_set' in inst
+    _c10.ONLY_OPS = {'queue_set'}
+    try:
+        _c10.run(F, RuleProxy(R, {'M2': rule}, only=_qs))
+    finally:
+        _c10.ONLY_OPS = None
+    _c11.run(F, RuleProxy(R, {'W3': rule}, only=_qs))
+
+
 def decode_tables_rule(F, R, rule, prefixes):
     """Reader and writer tables agree: a conversion defined on a field-less enum (inherent fn / From / TryFrom taking one
     integer) maps each integer it accepts to the variant whose discriminant is that integer - the discriminants are the
